@@ -43,6 +43,20 @@ Theorem keepraw_dec_enc_decoded : forall (T : Type) (dec : decoder T) (enc : T -
   dec_keepraw dec (enc_keepraw enc k ++ r') = DOk (k, r').
 Proof. intros T dec enc bs k r r'. apply keepraw_roundtrip_decoded. Qed.
 
+(* detached values: KeepRaw::to_owned() (and Clone of the owned value) keep the captured bytes, so
+   encoding a detached value gives exactly the bytes it was decoded from; a mutation after detaching
+   re-encodes from the new content *)
+Theorem keepraw_to_owned_reencode_exact : forall (T : Type) (dec : decoder T) (enc : T -> list Z) bs k r,
+  consumes dec -> dec_keepraw dec bs = DOk (k, r) ->
+  enc_keepraw enc (keepraw_to_owned k) ++ r = bs /\
+  enc_keepraw enc (keepraw_clone (keepraw_to_owned k)) ++ r = bs /\
+  fst (keepraw_to_owned k) = consumed bs r.
+Proof. intros T dec enc bs k r. apply keepraw_to_owned_exact. Qed.
+
+Theorem keepraw_to_owned_mutation : forall (T : Type) (enc : T -> list Z) (k : list Z * T) (x' : T),
+  enc_keepraw enc (keepraw_deref_mut_set (keepraw_to_owned k) x') = enc x'.
+Proof. intros. reflexivity. Qed.
+
 Theorem keepraw_mutation : forall (T : Type) (enc : T -> list Z) (k : list Z * T) (x' : T),
   enc_keepraw enc (keepraw_deref_mut_set k x') = enc x'.
 Proof. intros. reflexivity. Qed.
